@@ -337,7 +337,7 @@ class PermutationVariable(Variable):
         return lb.tolist(), ub.tolist()
 
     def correct(self, value: tuple | list | np.ndarray) -> list[int]:
-        return np.argsort(value).tolist()
+        return np.argsort(np.argsort(value)).tolist()
 
     def decode(self, value: tuple | list | np.ndarray) -> Any:
         value = self.correct(value)
